@@ -1,5 +1,6 @@
 """C08 — printed decimals are faithful and never silently truncated."""
 from fractions import Fraction
+import json
 import vlib
 
 PROP_FILE = "props/C08.v"
@@ -119,6 +120,31 @@ def run(rng, tier, model_ok):
         if why:
             failures.append({"input": list(c), "text": text, "why": why})
         cases.append((2, list(c), [ord(ch) for ch in text]))
+    # values as they arrive from stored data: serde hands over numerator and denominator as written, not reduced and possibly with a
+    # negative denominator; the text must be that of the value all the same
+    def big(z):
+        sign = 0 if z == 0 else (1 if z > 0 else -1)
+        z = abs(z)
+        ds = []
+        while z:
+            ds.append(z & 0xFFFFFFFF)
+            z >>= 32
+        return [sign, ds]
+    raw = []
+    for (n, d) in [(1, -3), (7, -2), (-7, -2), (2, 6), (-2, 6), (10, -4), (-1, -1000000000000), (123456789, -1000), (5, -1), (0, -5), (6, 3), (1, -7)] + \
+                  [(rng.randint(-10 ** 6, 10 ** 6), rng.choice([-1, 1]) * rng.randint(1, 10 ** 4)) for _ in range(40 if tier == "quick" else 600)]:
+        for lim, el in [(6, 8), (12, 12), (1, 1), (3, 2)]:
+            raw.append((n, d, lim, el))
+    jrep = vlib.run_impl(["DJ %s %d %d" % (vlib.hx(json.dumps([big(n), big(d)])), lim, el) for n, d, lim, el in raw])
+    for (n, d, lim, el), r in zip(raw, jrep):
+        text = r.get("text")
+        if text is None:
+            failures.append({"input": [n, d, lim, el], "why": "a stored value %d/%d cannot be displayed: %s" % (n, d, str(r)[:160])})
+            continue
+        f = Fraction(n, d)
+        why = check(f.numerator, f.denominator, lim, el, text)
+        if why:
+            failures.append({"input": [n, d, lim, el], "text": text, "why": "stored as %d/%d: %s" % (n, d, why)})
     mismatches = []
     if model_ok:
         sub = [c for c in cases if abs(c[1][0]) < 10 ** 45 and c[1][1] < 10 ** 45]
